@@ -22,6 +22,7 @@ type simQueue struct {
 	limiter    workqueue.RateLimiter
 	onAdd      func(item string) // observation hook (monitors)
 	stamps     map[string]uint64
+	waiting    map[string]*simTimer
 	Adds       int
 }
 
@@ -29,7 +30,7 @@ var _ workqueue.RateLimitingInterface = (*simQueue)(nil)
 
 func newSimQueue(p *Proc, ctrl, name string) *simQueue {
 	q := &simQueue{proc: p, name: name, ctrl: ctrl, dirty: map[string]bool{}, processing: map[string]bool{},
-		limiter: workqueue.DefaultControllerRateLimiter(), stamps: map[string]uint64{}}
+		limiter: workqueue.DefaultControllerRateLimiter(), stamps: map[string]uint64{}, waiting: map[string]*simTimer{}}
 	p.queues = append(p.queues, q)
 	return q
 }
@@ -104,7 +105,17 @@ func (q *simQueue) AddAfter(item interface{}, d time.Duration) {
 		return
 	}
 	k := item.(string)
-	q.proc.sim.After(d, fmt.Sprintf("%s/%s addAfter %s", q.proc.name, q.name, k), func() {
+	// client-go's delaying queue keeps one waiting entry per item and only ever
+	// moves it earlier.
+	at := q.proc.sim.Now().Add(d)
+	if w := q.waiting[k]; w != nil && !w.canceled {
+		if !at.Before(w.at) {
+			return
+		}
+		q.proc.sim.Cancel(w)
+	}
+	q.waiting[k] = q.proc.sim.At(at, fmt.Sprintf("%s/%s addAfter %s", q.proc.name, q.name, k), func() {
+		delete(q.waiting, k)
 		if q.proc.dead || q.shutdown {
 			return
 		}
